@@ -10,7 +10,9 @@ CONSTANTS
   MaxW = 2
   LookupMode = "stale-after-validate"
   MaxConns = 2
+  LookupLocks = "single"
+  MaxWrites = 0
   Cases <- SessCases
 VIEW view
-INVARIANTS NoBytes NoEarlyClose KeepsReading MatchSound ConsumeExact FoundWhenComplete NeverDropsMatching MarkedUsed TableSound RegistryFree DeadlineUnpredictable
+INVARIANTS NeverDropsMatching FoundWhenComplete
 CHECK_DEADLOCK FALSE
